@@ -130,12 +130,17 @@ func (cp *Compaction) UsesAfterLoop() (good, bad []ssa.Instruction) {
 	if refs == nil {
 		return nil, nil
 	}
-	for _, r := range *refs {
-		if loop[r.Block()] {
-			continue
+	// "after the loop": blocks reachable from the header's exit successor
+	after := map[*ssa.BasicBlock]bool{}
+	for _, s := range cp.Header.Succs {
+		if !loop[s] {
+			for b := range Reachable(s, nil, nil, nil) {
+				after[b] = true
+			}
 		}
-		// only uses after the loop
-		if !cp.Header.Dominates(r.Block()) {
+	}
+	for _, r := range *refs {
+		if loop[r.Block()] || !after[r.Block()] {
 			continue
 		}
 		if _, isDbg := r.(*ssa.DebugRef); isDbg {
